@@ -24,7 +24,6 @@
 
    The file ends with the correspondence runner used by the harness. *)
 From Coq Require Export String List ZArith NArith Bool.
-From Coq Require Import Uint63.
 Export ListNotations.
 Open Scope Z_scope.
 
@@ -850,41 +849,6 @@ Record case := mkCase {
   c_poolout : Z             (* digest of: values of the cells handed back to the pool (bottom
                                first); per cell the index of the first identical pointer *)
 }.
-
-(* transport of the bytecode: 7 bytes per primitive 63-bit integer (big-endian),
-   zero padded; parsing one numeral per byte would dominate the run.  Used only
-   to build [c_code]; no theorem mentions primitive integers. *)
-Fixpoint bits_to_N (n : nat) (i : int) : N :=
-  match n with
-  | O => 0%N
-  | S k =>
-    let r := bits_to_N k (Uint63.lsr i 1) in
-    if Uint63.eqb (Uint63.land i 1) 0 then N.double r else N.succ_double r
-  end.
-Fixpoint unpack7 (k : nat) (i : int) (acc : list N) : list N :=
-  match k with
-  | O => acc
-  | S k' => unpack7 k' (Uint63.lsr i 8) (bits_to_N 8 (Uint63.land i 255) :: acc)
-  end.
-Fixpoint unpack (l : list int) : list N :=
-  match l with
-  | [] => []
-  | i :: r => unpack7 7 i (unpack r)
-  end.
-(* every per-case number travels as a primitive integer:
-   - pool seeds: x >= 16 stands for the value x - 2^61, x < 16 for bigs[x]
-   - the two digests are split into two 62-bit halves *)
-Definition seed_of (bigs : list Z) (x : int) : Z :=
-  if Uint63.ltb x 16 then nth (Z.to_nat (Uint63.to_Z x)) bigs 0%Z
-  else (Uint63.to_Z x - 2305843009213693952)%Z.
-Definition join62 (lo hi : int) : Z :=
-  (Uint63.to_Z lo + 4611686018427387904 * Uint63.to_Z hi)%Z.
-Definition mkCaseP (bigs : list Z) (packed : list int) (len gas : int) (pool0 : list int)
-           (status gas_left : int) (run_lo run_hi pool_lo pool_hi : int) : case :=
-  mkCase (firstn (Z.to_nat (Uint63.to_Z len)) (unpack packed)) (Z.to_N (Uint63.to_Z gas))
-         (map (seed_of bigs) pool0)
-         (Z.to_N (Uint63.to_Z status)) (Z.to_N (Uint63.to_Z gas_left))
-         (join62 run_lo run_hi) (join62 pool_lo pool_hi).
 
 Fixpoint index_of (l : list N) (x : N) (i : N) : N :=
   match l with
